@@ -181,7 +181,7 @@ claim('C04', 'Lean 4 theorems on calendar arithmetic, the capture-normalisation 
       "at column 0. Epoch notations are only right at offset 0 (F26, proved). The 173 regexes are inside the model: each row's pattern is re-parsed from datetime.rs into an AST on every run, with a language "
       "semantics over strict UTF-8 and an executable leftmost-first matcher with captures proved sound; over the whole table every match contains a digit, has_year4 rows need '1' or '2', has_d2 rows need two "
       "consecutive digits, so the EZCHECK pre-checks never skip a matching line and find_datetime_in_line with its persisting cursors equals the loop without them (C04_ezcheck_sound, C04_ezcheck_transparent); "
-      "for the RFC 3339 row capture is proved end to end for every field value (C04_rfc3339_search, C04_rfc3339_end_to_end). For 168 of the 173 rows the capture half is proved over catalogues derived AUTOMATICALLY from the regenerated AST (RegexAuto: per item every symbolic word, a greedy-first policy, right-to-left pruning to determinate entries; soundness by construction, no per-row input): for every valid selection of words and admissible tail the leftmost-first matcher matches at 0, stops after the words, and every named group spans the word of its item (C04_rowN_search, N in 0..64, 70..172; one decide +kernel per row pins the catalogue digest, so a changed pattern breaks it); rows 65-69 (a greedy [^\n]+ before the stamp) are not covered; three padded-day / zone-prefix statements are proved false with witnesses replayed on the regex crate. Pattern selection is modelled (PatSelSpec): try order, first-match, the one row kept "
+      "for the RFC 3339 row capture is proved end to end for every field value (C04_rfc3339_search, C04_rfc3339_end_to_end). For 168 of the 173 rows the capture half is proved over catalogues derived AUTOMATICALLY from the regenerated AST (RegexAuto: per item every symbolic word, a greedy-first policy, right-to-left pruning to determinate entries; soundness by construction, no per-row input): for every valid selection of words and admissible tail the leftmost-first matcher matches at 0, stops after the words, and every named group spans the word of its item (C04_rowN_search, N in 0..64, 70..172; one decide +kernel per row pins the catalogue digest, so a changed pattern breaks it); rows 65-69 (a greedy [^\n]+ before the stamp) are not covered; three padded-day / zone-prefix statements are proved false with witnesses replayed on the regex crate. The normalisation itself is REGENERATED (CapturesSpec): all of captures_to_buffer_bytes is translated into a statement list on every run and its interpreter is proved equal to the hand model (captures_skeleton_is_model), so the normalisation theorems hold of the source's program; nine mutants regenerated from edited source text (incl. both seeded fraction-padding changes) each falsify a named statement. Pattern selection is modelled (PatSelSpec): try order, first-match, the one row kept "
       "after analysis, stability for one-notation files, parse-cache transparency and clearing at year changes. Ties: rgx (every row: match, span, every group span vs the regex crate), time (regex+normalise+chrono "
       "pipeline at boundary instants), patsel (real SyslineReader/SyslogProcessor). Known findings F26-F28.",
       TB + "completeness/priority of the model matcher w.r.t. the regex crate (rows other than the RFC 3339 one) and chrono parse are validated differentially only; numeric-offset scanning is proved at instances.",
